@@ -1091,6 +1091,11 @@ class Interp:
         imp = find_import(mod, name)
         if imp is not None:
             return imp
+        # a module-level alias of another global (`Py_Vec = Vec`): the last such assignment, to a plain name
+        for stmt in reversed(mod.tree.body):
+            if isinstance(stmt, ast.Assign) and len(stmt.targets) == 1 and isinstance(stmt.targets[0], ast.Name) \
+                    and stmt.targets[0].id == name and isinstance(stmt.value, ast.Name) and stmt.value.id != name:
+                return self.module_global(module, stmt.value.id)
         return _MISSING
 
     def lift_const(self, v):
